@@ -83,3 +83,8 @@ Theorem C10_reseed_partial : forall n b s,
   s_py x = Seeded s /\ s_np x = Seeded s /\ s_torch x = Seeded s /\ s_aspace x = Seeded s /\ s_pending x = seeds_from s n.
 Proof. exact reseed_all_seeded. Qed.
 Print Assumptions C10_reseed_partial.
+
+(* the scan's tag numbering is the inverse of gen_of_tag (every sub-env generator has tag 4) *)
+Theorem C10_tag_numbering_partial : forall g, gen_of_tag (tag_of_gen g) = Some (match g with GEnv _ => GEnv 0 | _ => g end).
+Proof. exact gen_of_tag_of_gen. Qed.
+Print Assumptions C10_tag_numbering_partial.
